@@ -133,12 +133,23 @@ def build_overlay(name=None, tags=None):
     return path
 
 
+def modfile_copy(name):
+    """-mod=mod may rewrite go.mod/go.sum (a translator that imports golang.org/x/tools turns an indirect
+    requirement into a direct one).  /repo must never be modified by a check, so every build works on a
+    fresh copy of /repo's current go.mod and go.sum, passed with -modfile."""
+    d = os.path.join(WORK, "gomod", name)
+    os.makedirs(d, exist_ok=True)
+    for f in ("go.mod", "go.sum"):
+        shutil.copyfile(os.path.join(REPO, f), os.path.join(d, f))
+    return os.path.join(d, "go.mod")
+
+
 def go_build(name, pkg=None, race=False):
     """build harness binary /repo/internal/verifh/<name> (overlaid) -> .work/bin/<name>"""
     ov = build_overlay(name)
     out = os.path.join(WORK, "bin", name + ("-race" if race else ""))
     pkg = pkg or "./internal/verifh/" + name
-    cmd = ["go", "build", "-tags", "verif", "-overlay", ov, "-o", out]
+    cmd = ["go", "build", "-tags", "verif", "-overlay", ov, "-modfile", modfile_copy(name), "-o", out]
     if race:
         cmd.append("-race")
     cmd.append(pkg)
@@ -296,6 +307,8 @@ def stranger_grep():
 
 
 def strip_coq_comments(s):
+    """remove comments and blank out the contents of string literals (generated files carry
+    source identifiers such as SplitClient.Variable inside strings)"""
     out = []
     i, depth, instr = 0, 0, False
     while i < len(s):
@@ -303,6 +316,8 @@ def strip_coq_comments(s):
         if depth == 0 and c == '"':
             instr = not instr
             out.append(c)
+        elif depth == 0 and instr:
+            out.append("\n" if c == "\n" else "_")
         elif not instr and s.startswith("(*", i):
             depth += 1
             i += 1
